@@ -1186,7 +1186,19 @@ func c20Random(s *c20Seq, n int) {
 	}
 }
 
+// TestVerifC20Consts prints the time constants compiled into this binary (the model's Gen.lean is
+// generated from them).
+func TestVerifC20Consts(t *testing.T) {
+	b := fmt.Sprintf(`{"total": %d, "quiesce": %d, "ready": %d, "prepare": %d}`, int64(reloadTotalSwitchBudget),
+		int64(outbounddialer.VerifC20Quiesce()), int64(reloadReadyTimeout), int64(reloadPrepareTimeout))
+	if err := os.WriteFile(filepath.Join(VOutDir(), "c20.consts.json"), []byte(b), 0o644); err != nil {
+		t.Fatal(err)
+	}
+}
+
 func TestVerifC20(t *testing.T) {
+	// the abort marker lives in this run's temp dir (cmd/cmd.go is overlaid: AbortFile is a variable)
+	AbortFile = filepath.Join(t.TempDir(), "dae.abort")
 	regions, err := c20ExtractRegions(c20RepoDir())
 	if err != nil {
 		t.Fatal(err)
